@@ -163,9 +163,10 @@ Definition go_decode_boolean (src : bytes) : gres bytes :=
 (** * Size of what a decoder would allocate (used by the differential runs to
     skip hostile streams before handing them to Go or to the extracted
     decoders): the sum of the run lengths read by the same walk, counted
-    before the run is checked against the input. [kind]: 0 levels, 1 int32,
-    2 bits.  [skip_value_of_empty_run = false] walks like the specification
-    decoder (an empty run-length run still has its value). *)
+    before the run is checked against the input.  [kind]: 0 levels, 1 int32,
+    2 bits.  [go_walk = true] walks like the Go decoders (empty runs have no
+    value byte, counts above MaxInt32 stop the decoder before it allocates),
+    [go_walk = false] like the specification decoder [Rle.dec_runs]. *)
 Fixpoint rle_cost (fuel : nat) (go_walk : bool) (kind w : N) (src : bytes) : N :=
   match fuel with
   | O => 0
@@ -178,18 +179,15 @@ Fixpoint rle_cost (fuel : nat) (go_walk : bool) (kind w : N) (src : bytes) : N :
           | Some (u, r) =>
               let count := u / 2 in
               if go_walk && (count =? 0) then rle_cost f go_walk kind w r
-              else if N.odd u then
-                let nb := if kind =? 2 then count else count * w in
-                8 * count +
-                (if fits_len nb r then rle_cost f go_walk kind w (skipn (N.to_nat nb) r) else 0)
+              else if go_walk && (max_count <? count) then 0
               else
-                let nb := if kind =? 2 then 1 else (w + 7) / 8 in
-                count +
-                (if fits_len nb r then rle_cost f go_walk kind w (skipn (N.to_nat nb) r)
-                 else if kind =? 2 then 0 else 0)
+                let nb := if N.odd u then (if kind =? 2 then count else count * w)
+                          else (if kind =? 2 then 1 else (w + 7) / 8) in
+                (if N.odd u then 8 * count else count) +
+                (if fits_len nb r then rle_cost f go_walk kind w (skipn (N.to_nat nb) r) else 0)
           end
       end
   end.
 
-Definition go_rle_cost (kind w : N) (src : bytes) : N :=
-  N.max (rle_cost (length src) true kind w src) (rle_cost (length src) false kind w src).
+Definition go_rle_cost (kind w : N) (src : bytes) : N := rle_cost (length src) true kind w src.
+Definition spec_rle_cost (kind w : N) (src : bytes) : N := rle_cost (length src) false kind w src.
